@@ -93,7 +93,7 @@ def run_fixtures(prop):
             continue
         try:
             for o in fn(facts).obs:
-                if o.bad():
+                if o.bad() and o.status != "unclassified":
                     fired.add(o.key)
         except Exception:
             pass
@@ -147,7 +147,7 @@ def _eval_patch(args):
             return res
         finally:
             F.extract = orig
-        res["fired"] = sorted({o.key for o in obs if o.bad()})
+        res["fired"] = sorted({o.key for o in obs if o.bad() and o.status != "unclassified"})
         res["status"] = "ok"
         return res
     finally:
